@@ -92,6 +92,9 @@ func (p *Prog) checkLemma(lm *LemmaDef) *LemmaResult {
 		// (A\B) ∪ (B\A) ⊆ ∅
 		A = product(ds[0], ds[1], func(a, b bool) bool { return a != b })
 		B = emptyDFA(len(le.al.reps))
+	case "member":
+		// member("w", L): the string w is in L
+		A, B = ds[0], ds[1]
 	case "nonempty":
 		w, ok := ds[0].shortest()
 		ob := &Obligation{Name: "lemma." + lm.Name, Kind: "lemma", Pos: fmt.Sprintf("%s:%d", shortSpec(lm.File), lm.Line), Desc: lm.Text, Expect: VUnsat, Serves: lm.Serves}
@@ -243,6 +246,14 @@ func (p *Prog) lemmaAxiom(lm *LemmaDef) (axiom string, langs []string, ok bool) 
 		return id.Name, true
 	}
 	switch lm.Kind {
+	case "member":
+		b, okb := name(lm.Args[1])
+		if call, okc := lm.Args[0].(*ast.CallExpr); okb && okc && call.Fun.(*ast.Ident).Name == "lit" {
+			w, err := litString(call.Args[0])
+			if err == nil {
+				return fmt.Sprintf("(assert (! (inlang_%s %s) :named lemma_%s))", b, seqLit(w), sanitizeIdent(lm.Name)), []string{b}, true
+			}
+		}
 	case "subset":
 		b, okb := name(lm.Args[1])
 		if !okb {
@@ -279,6 +290,18 @@ func (p *Prog) lemmaAxiom(lm *LemmaDef) (axiom string, langs []string, ok bool) 
 			_ = pats
 			ax := fmt.Sprintf("(assert (! (forall (%s) (! (=> (and %s) (inlang_%s %s)) :pattern (%s))) :named lemma_%s))",
 				strings.Join(vars, " "), strings.Join(hyps, " "), b, catT, catT, sanitizeIdent(lm.Name))
+			if len(ns) == 2 {
+				// the same fact with the left operand itself a concatenation (associativity)
+				ax += fmt.Sprintf("\n(assert (forall ((s0a BSeq) (s0b BSeq) (s1 BSeq)) (! (=> (and (inlang_%s (bs_cat s0a s0b)) (inlang_%s s1)) (inlang_%s (bs_cat s0a (bs_cat s0b s1)))) :pattern ((bs_cat s0a (bs_cat s0b s1))))))", ns[0], ns[1], b)
+				// closure under appending a whole run of characters of a one-character class language
+				// (follows from the lemma by induction on the run length; engine inference rule)
+				if ns[0] == b {
+					if test := p.singleCharClassTest(ns[1], "(select rb kk)"); test != "" {
+						ax += fmt.Sprintf("\n(assert (forall ((x BSeq) (rb (Array Int Int)) (ro Int) (rl Int)) (! (=> (and (inlang_%s x) (<= 0 rl) (forall ((kk Int)) (=> (and (<= ro kk) (< kk (+ ro rl))) %s))) (inlang_%s (bs_cat x (bs_val rb ro rl)))) :pattern ((bs_cat x (bs_val rb ro rl))))))", b, test, b)
+						ax += fmt.Sprintf("\n(assert (forall ((rb (Array Int Int)) (ro Int) (rl Int)) (! (=> (and (inlang_%s bs_empty) (<= 0 rl) (forall ((kk Int)) (=> (and (<= ro kk) (< kk (+ ro rl))) %s))) (inlang_%s (bs_val rb ro rl))) :pattern ((inlang_%s (bs_val rb ro rl))))))", b, test, b, b)
+					}
+				}
+			}
 			return ax, append(ns, b), true
 		}
 	case "disjoint":
@@ -328,4 +351,32 @@ func validateLeaf(pattern string, le *langEnv, d *DFA, maxLen int, limit int) (c
 	}
 	rec(nil, d.init, 0)
 	return
+}
+
+// singleCharClassTest renders the membership test of a language ^[class]$ (ASCII class) on a term.
+func (p *Prog) singleCharClassTest(lang string, term string) string {
+	ld, ok := p.spec.Langs[lang]
+	if !ok || ld.Expr == nil {
+		return ""
+	}
+	call, ok := ld.Expr.(*ast.CallExpr)
+	if !ok || call.Fun.(*ast.Ident).Name != "regex" {
+		return ""
+	}
+	pat, err := litString(call.Args[0])
+	if err != nil {
+		return ""
+	}
+	ax := charSeqAxiom("X", pat)
+	// charSeqAxiom with one class: (= (inlang_X (bs_unit c0)) TEST)
+	const pre = "(assert (forall ((c0 Int)) (! (= (inlang_X (bs_unit c0)) "
+	if !strings.HasPrefix(ax, pre) {
+		return ""
+	}
+	rest := ax[len(pre):]
+	k := strings.Index(rest, ") :pattern")
+	if k < 0 {
+		return ""
+	}
+	return strings.ReplaceAll(rest[:k], "c0", term)
 }
